@@ -240,6 +240,19 @@ def run_unit(p, tier, seed):
                     r.v(PROPERTY, 'bytes_utils', 'xor', 'value', {'n': n, 'a': a, 'b': b}, 'bytewise xor', x)
                 if bu.bytes_xor(x, b) != a or bu.bytes_xor(a, a) != bytes(n):
                     r.v(PROPERTY, 'bytes_utils', 'xor', 'involution', {'n': n, 'a': a, 'b': b}, 'a', 'differs')
+            # a shorter second operand masks a prefix only: the result keeps len(a) and xor-ing twice restores a
+            for lb in sorted(x for x in {0, 1, n // 2, n - 1} if 0 <= x < n):
+                a, b = g.randbytes(n), g.randbytes(lb)
+                r['evaluations'] += 1
+                r['transitions'] += 2
+                try:
+                    x = bu.bytes_xor(a, b)
+                    if len(x) != n or x != bytes(p ^ q for p, q in zip(a, b)) + a[lb:]:
+                        r.v(PROPERTY, 'bytes_utils', 'xor', 'shorter-mask-value', {'n': n, 'mask_length': lb}, 'prefix masked, length kept', x)
+                    elif bu.bytes_xor(x, b) != a:
+                        r.v(PROPERTY, 'bytes_utils', 'xor', 'shorter-mask-involution', {'n': n, 'mask_length': lb}, 'a', 'differs')
+                except Exception as e:
+                    r.v(PROPERTY, 'bytes_utils', 'xor', 'shorter-mask-raises', {'n': n, 'mask_length': lb}, 'bytes', core.exc_text(e))
             for w in (0, n - 1, n, n + 1, n + 7):
                 if w < 0:
                     continue
